@@ -185,6 +185,22 @@ class STextReader(models.SIter):
         if name in ('__exit__', 'close'):
             self.closed = True
             return None
+        if name == 'read' and args and not kwargs:
+            # read(n) from the start: the first min(n, |text|) characters (the lines position is then unknown:
+            # the reader may not be iterated afterwards)
+            pos = self.pos
+            if not (isinstance(pos, int) and pos == 0):
+                raise Unsupported('read(size) of a text file that has been read from already')
+            n = texts._zi(args[0])
+            whole = self.text
+            head = interp.st.fresh_str('read')
+            rest = interp.st.fresh_str('unread')
+            interp.st.assume(whole == z3.Concat(head, rest))
+            interp.st.assume(z3.Length(head) == z3.If(n < z3.Length(whole), z3.If(n < 0, z3.Length(whole), n),
+                                                      z3.Length(whole)))
+            self.pos = wrap(self.xs.length)
+            self.xs = None
+            return wrap(head)
         if name == 'read':
             if args or kwargs:
                 raise Unsupported('read(size) of a text file')
